@@ -135,6 +135,8 @@ def contract_lines(spec, linemap, probe=True, for_replacement=False, light=False
     for c in spec.clauses:
         if c.kind == 'ensures' and light and not c.light:
             continue
+        if c.kind == 'ensures' and for_replacement and c.top:
+            continue
         if c.kind == 'ensures':
             out.append(('__CPROVER_ensures(%s)' % c.expr, c.label, 'ensures'))
             have_ens = True
